@@ -1150,6 +1150,9 @@ class Summaries:
             unb, _ = I.idiv(st, amount * rate, E18)
             w = I.gdiv(st, unb * E18, total)
             share, _ = I.idiv(st, w * mag, E18)
+            # valid consequences of the two division lemmas (help the nonlinear solver; they constrain nothing new)
+            st.add(z3.Implies(unb <= total, z3.And(w <= E18, share <= mag)))
+            st.add(z3.Implies(total == 0, share == 0))
             pos_share = share + ite(mag != 0, 1, 0)
             actual = ite(neg, unb + ite(share > 1, share - 1, 0), ite(unb >= pos_share, unb - pos_share, 0))
             res = ite(amount != 0, I.gdiv(st, actual * E18, amount), rate)
